@@ -9,6 +9,13 @@ between steps and other jobs run to completion beforehand (prior history).  For 
     (`JOBS perjob`, Props/C04 perJob_noninterference / perJob_fresh) as sets;
   * its partition is compared with the partition of the same job run alone afterwards: equal when
     every step's optimum is unique (`ties=0`), otherwise only the cost is comparable.
+
+Stream `jsched` (system model, lean/TrackpyV/Model/JobsLinker.lean, Props/C04Sys): 2-3 plain
+`link_iter` / `link_df_iter` jobs stepped in a generated order; the same cfgs + schedule go to the driver op `JSCHED`
+(`runSched .perLinker`).  Per job: the uuids of the points of every level (recorded through a
+wrapper of `Linker.update_hash`) must be the model's; when the monitor accepts the job's output with
+`ties=0 capped=0` its partition, the number of levels it yielded and whether it raised
+SubnetOversizeException must be the model's (function mode); otherwise validity + optimal cost only.
 """
 import itertools
 
@@ -20,13 +27,22 @@ from .common import Result
 PROP = "C04"
 RULE = ("schedules of 2-4 interleaved generators (link_iter, link_df_iter, find_link_iter) with "
         "1-6 levels each, complete tp.link calls injected between steps, prior-history prefixes; "
-        "thorough: every interleaving of 3 jobs x <=3 steps for a set of base movies.  "
+        "thorough: every interleaving of 3 jobs x <=3 steps for a set of base movies.  Stream jsched: "
+        "2-3 link_iter / link_df_iter jobs (2-5 levels, memory 0-2, Linker.MAX_SUB_NET_SIZE lowered to "
+        "1-3 in 30 % of the cases), shuffled or round-robin order, the same schedule through the system "
+        "model (JSCHED): uuids of every level's points, and partition / levels yielded / raise when "
+        "every optimum is unique.  "
         "Non-trivial = at least two jobs are really interleaved (some job is stepped between two "
         "steps of another) and at least one trajectory is born after a first level; distinct = "
         "distinct canonical schedule+movies.")
 ASSUMPTIONS = [
     "generator steps are atomic (single-threaded interleaving); thread-level races are outside "
     "the model",
+    "jsched: the implementation is compared with the system model's labels as PARTITIONS and only for "
+    "jobs whose every step has a unique optimum and stays within the documented caps (ties=0, "
+    "capped=0 reported by the monitor); Point.uuid values are read through a wrapper of "
+    "Linker.update_hash and compared exactly; Linker.MAX_SUB_NET_SIZE is one class attribute for all "
+    "jobs of a schedule",
     "which integer names a trajectory is unspecified: ids are compared as per-step sets with the "
     "per-job counter model, partitions by content",
     "partition equality with the solo run is required only when every step has a unique optimum; "
@@ -176,6 +192,8 @@ def gen_cases(ctx):
                                 and jb.get("withhold_seed") is not None for jb in jobs):
             case["fresh"] = "dim"        # the dim movies are where stale grey-level statistics show
         yield case
+    for i in range(ctx.n(60, 600)):
+        yield gen_jsched(ctx.rng("jsched", i))
     if ctx.thorough:
         # every interleaving of 3 jobs with <= 3 steps each, for several base movie triples
         for b in range(12):
@@ -188,6 +206,250 @@ def gen_cases(ctx):
                 base += [j] * len(jb["frames"])
             for perm in sorted(set(itertools.permutations(base))):
                 yield dict(stream="sched", jobs=jobs, sched=list(perm), link_seed=b, family="exh")
+
+
+def gen_jsched(rng):
+    """a schedule of 2-3 plain link_iter / link_df_iter jobs for the system model (`JSCHED`)"""
+    nj = rng.randint(2, 3)
+    small = rng.random() < 0.3       # Linker.MAX_SUB_NET_SIZE set low: some jobs die of an oversize sub-net
+    jobs = []
+    for _ in range(nj):
+        mv = linkcommon.gen_movie(rng, thorough=False, plant_history=True)
+        mv["frames"] = mv["frames"][:rng.randint(2, 5)]
+        mv["memory"] = min(mv["memory"], 2)
+        mv["kind"] = mv["entry"] = rng.choice(["link_iter", "link_iter", "link_df_iter"])
+        mv["scale_pow"] = 0
+        mv["strategy"] = rng.choice(["recursive", "nonrecursive"] if small
+                                    else ["recursive", "nonrecursive", "numba", None])
+        mv.pop("maxsize", None)
+        jobs.append(mv)
+    lens = [len(jb["frames"]) for jb in jobs]
+    if rng.random() < 0.6:
+        steps = [j for j in range(nj) for _ in range(lens[j])]
+        rng.shuffle(steps)
+    else:                            # round robin: strictly alternating while several jobs are alive
+        steps = [j for k in range(max(lens)) for j in range(nj) if k < lens[j]]
+    case = dict(stream="jsched", jobs=jobs, sched=steps, u0=rng.choice([0, 0, 1, 7, 1000]))
+    if small:
+        case["maxsize"] = rng.choice([1, 2, 2, 3])
+    return case
+
+
+def _part(labs):
+    d = {}
+    for k, ls in enumerate(labs):
+        for i, l in enumerate(ls):
+            d.setdefault(l, []).append((k, i))
+    return frozenset(tuple(x) for x in d.values())
+
+
+def _nat_levels(txt, n):
+    if n == 0:
+        return []
+    return [[int(x) for x in part.split(",") if x != ""] for part in txt.split("|")]
+
+
+def run_jsched(ctx, inp):
+    import trackpy.linking.linking as _L
+    from trackpy.linking.utils import Point, SubnetOversizeException
+    res = Result()
+    jobs, sched = inp["jobs"], inp["sched"]
+    nj = len(jobs)
+    limits = linkcommon.code_limits()
+    maxsize = int(inp.get("maxsize") or limits[0])
+    out = [[] for _ in jobs]           # (pts, labels) per yielded level
+    uids = [[] for _ in jobs]          # uuids of the points of every level the job created
+    raised = [None] * nj               # index of the frame at which the job raised
+    cur = [None]
+    orig_update, old_max = _L.Linker.update_hash, _L.Linker.MAX_SUB_NET_SIZE
+
+    def update_hash(self, coords, t, extra_data=None):
+        r = orig_update(self, coords, t, extra_data)
+        uids[cur[0]].append([int(p.uuid) for p in self.hash.points])
+        return r
+    gens = [None] * nj
+    ops = []
+    try:
+        _L.Linker.update_hash = update_hash
+        _L.Linker.MAX_SUB_NET_SIZE = maxsize
+        Point.reset_counter(int(inp.get("u0", 0)))      # the process-wide counter stands anywhere
+        for s in sched:
+            if raised[s] is not None:
+                continue                                 # a dead generator is not stepped again
+            cur[0] = s
+            try:
+                if gens[s] is None:
+                    gens[s] = make_gen(jobs[s])
+                pts, labels = next(gens[s])
+            except SubnetOversizeException:
+                raised[s] = len(out[s])
+                continue
+            except StopIteration:
+                res.violation("property-violation", "job %d stopped before its last frame" % s,
+                              signature=dict(stream="jsched", what="early-stop"))
+                return res
+            out[s].append((pts, labels))
+            ops.append(s)
+    finally:
+        _L.Linker.update_hash = orig_update
+        _L.Linker.MAX_SUB_NET_SIZE = old_max
+        for g in gens:
+            if g is not None:
+                g.close()
+    res.stat("jsched_schedules")
+    res.stat("jsched_jobs", nj)
+    res.stat("jsched_steps", len(ops))
+    if inp.get("maxsize"):
+        res.stat("jsched_small_max_sub_net_size")
+    # the model: same cfgs, same schedule (every scheduled frame, also those after a raise)
+    segs = ["mode=perlinker u0=%d njobs=%d" % (int(inp.get("u0", 0)), nj)]
+    segs += [linkcommon.cfg_tokens(jb, maxsize=maxsize) for jb in jobs]
+    idx = [0] * nj
+    for s in sched:
+        k = idx[s]
+        idx[s] += 1
+        pts = jobs[s]["frames"][k]
+        segs.append("j=%d t=%d | %s | R" % (s, jobs[s]["t0"] + k,
+                                            " ".join(",".join(str(int(c)) for c in p) for p in pts)))
+    resp = ctx.ask("JSCHED " + " ; ".join(segs))
+    model = []
+    for grp in resp.split(" ; "):
+        kvs = dict(tok.split("=", 1) for tok in grp.split() if "=" in tok)
+        if "job" not in kvs:
+            raise RuntimeError("JSCHED: %r" % resp[:200])
+        n = int(kvs["n"])
+        mu = kvs.get("uids", "")
+        model.append(dict(failed=kvs["failed"] == "1", n=n, labels=_nat_levels(kvs.get("labels", ""), n),
+                          uids=_nat_levels(mu, 1) if (n > 0 or mu != "" or kvs["failed"] == "1") else []))
+    inter = any(ops[i] != ops[i + 1] and ops[i] in ops[i + 2:] for i in range(len(ops) - 2))
+    compared = 0
+    for j, jb in enumerate(jobs):
+        md = model[j]
+        lv = levels_for_monitor(jb, out[j])
+        m = {"verdict": "ok", "ties": "0", "capped": "0"}
+        if lv:
+            m = common.kv(ctx.ask(linkcommon.lrun_line(jb, lv, maxsize=maxsize)))
+        v = m.get("verdict")
+        if v not in ("ok", "capped"):
+            reason = str(m.get("reason")).replace("_", " ")
+            omsg = linkcommon.oracle_levels(jb, lv)
+            if omsg is not None:
+                res.violation("property-violation", "job %d under interleaving: %s" % (j, omsg),
+                              impl=dict(ops=ops, levels=out[j]), model=m,
+                              signature=dict(stream="jsched", what="invalid-labels-under-interleaving"))
+            else:
+                res.violation("correspondence-break", "job %d: monitor rejects (%s), oracle accepts"
+                              % (j, reason), impl=out[j], model=m, broken="Linker.stepCheck",
+                              signature=dict(stream="jsched", what=reason))
+            continue
+        unique = v == "ok" and m.get("ties") == "0" and m.get("capped") == "0"
+        did_raise = raised[j] is not None
+        if did_raise:
+            res.stat("jsched_jobs_raised")
+            # the raise itself: judged by the monitor (`R` level), then by the independent oracle
+            k = raised[j]
+            lvR = lv + [(jb["t0"] + k, jb["frames"][k], None)]
+            mr = common.kv(ctx.ask(linkcommon.lrun_line(jb, lvR, maxsize=maxsize)))
+            vr = mr.get("verdict")
+            if vr == "capped":
+                # beyond MAX_NEIGHBORS / numba's 9-candidate cap: the documented caps, outside the model
+                res.stat("jsched_capped_raise")
+                unique = False
+            elif vr != "expect-oversize":
+                exp = linkcommon.expected_oversize_py(jb, lv, jb["t0"] + k, jb["frames"][k], maxsize)
+                if not exp:
+                    res.violation("property-violation",
+                                  "job %d raised SubnetOversizeException at its frame %d but no group has "
+                                  "more than %d sources" % (j, k, maxsize), impl=dict(ops=ops, levels=out[j]),
+                                  model=mr, signature=dict(stream="jsched", what="raise-without-oversize"))
+                else:
+                    res.violation("correspondence-break", "job %d: monitor rejects the raise at frame %d, "
+                                  "the oracle expects it" % (j, k), impl=out[j], model=mr,
+                                  broken="Linker.stepCheck", signature=dict(stream="jsched", what="raise"))
+                continue
+        # uuids: the job's own counter, 0,1,2,... in creation order, whatever the others did
+        nl = min(len(uids[j]), len(md["uids"])) if not unique else max(len(uids[j]), len(md["uids"]))
+        if uids[j][:nl] != md["uids"][:nl]:
+            flat = [u for l in uids[j] for u in l]
+            if len(set(flat)) != len(flat):
+                res.violation("property-violation", "job %d: two of its points carry the same uuid "
+                              "(the hash of a point) under this schedule" % j,
+                              impl=dict(ops=ops, uids=uids[j]), model=md["uids"],
+                              signature=dict(stream="jsched", what="uuid-collision"))
+            else:
+                # which variant is the code?  (the model keeps the two other designs side by side)
+                variant = ""
+                for mode in ("sharedreset", "shared"):
+                    alt = ctx.ask("JSCHED " + " ; ".join([segs[0].replace("perlinker", mode)] + segs[1:]))
+                    grp = alt.split(" ; ")[j] if len(alt.split(" ; ")) > j else ""
+                    au = dict(tok.split("=", 1) for tok in grp.split() if "=" in tok).get("uids")
+                    if au is not None and _nat_levels(au, 1)[:nl] == uids[j][:nl]:
+                        variant = " (they are those of UidMode.%s)" % mode
+                        break
+                res.violation("correspondence-break", "job %d: uuids of its points differ from the "
+                              "per-Linker counter of the system model%s" % (j, variant),
+                              impl=uids[j], model=md["uids"],
+                              broken="JobsLinker.stepSys (UidMode.perLinker)",
+                              signature=dict(stream="jsched", what="uuids-differ"))
+            continue
+        res.stat("jsched_uuid_levels_compared", nl)
+        if not unique:
+            res.stat("jsched_jobs_tied_or_capped")
+            continue
+        # function mode
+        compared += 1
+        res.stat("jsched_function_mode_jobs")
+        impl_labels = [l for _, l in out[j]]
+        if md["failed"] != did_raise or md["n"] != len(out[j]):
+            res.violation("correspondence-break",
+                          "job %d: implementation yielded %d levels and %s; the system model %d and %s"
+                          % (j, len(out[j]), "raised" if did_raise else "did not raise", md["n"],
+                             "raised" if md["failed"] else "did not raise"),
+                          impl=dict(ops=ops, levels=out[j]), model=md, broken="JobsLinker.runSched",
+                          signature=dict(stream="jsched", what="raise-differs"))
+            continue
+        if _part(md["labels"]) != _part(impl_labels) or \
+                [len(x) for x in md["labels"]] != [len(x) for x in impl_labels]:
+            # which side?  the job alone (the statement: same labels as when run alone)
+            old = _L.Linker.MAX_SUB_NET_SIZE
+            _L.Linker.MAX_SUB_NET_SIZE = maxsize
+            try:
+                solo = []
+                try:
+                    for x in make_gen(jb):
+                        solo.append(x)
+                except SubnetOversizeException:
+                    pass
+            finally:
+                _L.Linker.MAX_SUB_NET_SIZE = old
+            if partition(solo[:len(out[j])]) != partition(out[j]):
+                res.violation("property-violation", "job %d: partition under interleaving differs from "
+                              "the solo run although every step has a unique optimum" % j,
+                              impl=dict(ops=ops, inter=out[j], solo=solo),
+                              signature=dict(stream="jsched", what="partition-differs-unique-optimum"))
+            else:
+                res.violation("correspondence-break", "job %d: unique optimum at every step, yet the "
+                              "partition differs from the system model's" % j, impl=impl_labels,
+                              model=md["labels"], broken="JobsLinker.runSched / LinkerAlgo.algoLabels",
+                              signature=dict(stream="jsched", what="function-mode-differs"))
+            continue
+        # the model's job output is the deterministic movie function (instance of sched_job_eq_algo)
+        if not md["failed"] and lv:
+            a = ctx.ask(linkcommon.lrun_line(jb, lv, maxsize=maxsize).replace("LRUN", "LALGO", 1))
+            if not a.startswith("ok") or _nat_levels(a[3:], len(lv)) != md["labels"]:
+                res.violation("correspondence-break", "job %d: JSCHED and LALGO disagree" % j,
+                              impl=a, model=md["labels"], broken="JobsLinker.sched_job_eq_algo (driver)",
+                              signature=dict(stream="jsched", what="jsched-vs-lalgo"))
+        births = sum(1 for k, ls in enumerate(impl_labels[1:]) for l in ls
+                     if all(l not in prev for prev in impl_labels[:k + 1]))
+        res.stat("jsched_births_after_first_level", births)
+        res.stat("jsched_contested_subnets", int(m.get("contested", 0)))
+        res.stat("jsched_memory_relinks", int(m.get("relinks", 0)))
+    res.nontrivial = inter and compared > 0
+    if res.nontrivial and len(ops) <= 8 and not res.viol:
+        res.sample = dict(stream="jsched", schedule=ops, frames=[jb["frames"] for jb in jobs],
+                          labels=[[l for _, l in o] for o in out], uuids=uids, model=resp)
+    return res
 
 
 def make_gen(jb, shared=None):
@@ -283,6 +545,8 @@ def run_case(ctx, inp):
     import random
     import trackpy as tp
     from trackpy.linking.utils import SubnetOversizeException
+    if inp.get("stream") == "jsched":
+        return run_jsched(ctx, inp)
     res = Result()
     jobs, sched = inp["jobs"], inp["sched"]
     # caller-owned objects shared between jobs (the solo re-runs below get FRESH ones)
